@@ -127,6 +127,31 @@ func alphaUniverses() []universe {
 			probe: alphaProbe([]byte("pmstxab12")),
 		})
 	}
+	// U6: shared runs around 2^8 and 2^9 bytes (lengths that no longer fit a byte; every key below a stem shares the run)
+	for _, L := range []int{250, 256, 260, 265, 512} {
+		L := L
+		us = append(us, universe{
+			name: fmt.Sprintf("U6huge%d", L),
+			next: func(r *rand.Rand) string {
+				k := []byte(pick(r, []string{"", "s", "t"}))
+				k = append(k, []byte(strings.Repeat("p", L-len(k)+r.Intn(2)))...)
+				k = append(k, pick(r, []byte("ab12")))
+				if r.Intn(2) == 0 {
+					k = append(k, randBytes(r, []byte("ab"), 1, 2)...)
+				}
+				return hexLit(k)
+			},
+			probe: alphaProbe([]byte("pstab12")),
+		})
+	}
+	// U7: keys containing and ending in 0x00 (little-endian integers, padded records). The history keeps the stored
+	// set free of pairs where one key followed by 0x00 starts the other (known finding D3).
+	nul := []byte{0, 0, 'a', 'b'}
+	us = append(us, universe{
+		name:  "U7nul",
+		next:  func(r *rand.Rand) string { return hexLit(randBytes(r, nul, 1, 5)) },
+		probe: alphaProbe(nul),
+	})
 	// U4: wide fan-out at one or two levels
 	us = append(us, universe{
 		name: "U4fan",
@@ -303,7 +328,40 @@ func collUniverses() []universe {
 		}
 		return hexLit([]byte(string(rs)))
 	}
+	// one multi-byte script, short strings: many keys are proper prefixes of others, character counts and byte counts differ
+	scripts := [][]rune{[]rune("привет"), []rune("日本語中文"), []rune("αβγά"), []rune("éèêa")}
+	script := func(r *rand.Rand) string {
+		al := scripts[r.Intn(len(scripts))]
+		n := 1 + r.Intn(6)
+		rs := make([]rune, n)
+		for i := range rs {
+			rs[i] = al[r.Intn(2+r.Intn(len(al)-1))]
+		}
+		return hexLit([]byte(string(rs)))
+	}
+	// long strings whose sort keys share runs around 2^8 bytes: 64 letters differing in the case of an early letter
+	// (primary and secondary levels identical), or a shared prefix of 126..134 letters
+	longBase := ""
+	long := func(r *rand.Rand) string {
+		if longBase == "" {
+			longBase = string(randBytes(r, []byte("abcdefghijklmnopqrstuvwxyz"), 140, 140))
+		}
+		if r.Intn(2) == 0 {
+			b := []byte(longBase[:64])
+			i := r.Intn(8)
+			b[i] = b[i] - 'a' + 'A'
+			if r.Intn(3) == 0 {
+				j := r.Intn(8)
+				b[j] = b[j]&^0x20 | byte(r.Intn(2))<<5
+			}
+			return hexLit(b)
+		}
+		n := 126 + r.Intn(9)
+		return hexLit(append([]byte(longBase[:n]), randBytes(r, []byte("ab"), 1, 2)...))
+	}
 	return []universe{
+		{name: "coll-script", next: script, probe: probe},
+		{name: "coll-long", next: long, probe: probe},
 		{name: "coll-short", next: gen(2), probe: probe},
 		{name: "coll-mixed", next: gen(4), probe: probe},
 		{name: "coll-ascii", next: func(r *rand.Rand) string {
@@ -380,7 +438,7 @@ func compUniverses(fields []string) []universe {
 			for i := range fields {
 				pinned[v][i] = fieldGen[i](r)
 				if fields[i] == "s" {
-					pinned[v][i] = hexLit([]byte(strings.Repeat("p", 11+2*v)))
+					pinned[v][i] = hexLit([]byte(strings.Repeat("p", pick(r, []int{11, 13, 12, 254, 258})+2*v)))
 				}
 			}
 		}
